@@ -680,7 +680,11 @@ class TensorDiagram:
                 source_index = len(self._nodes)
                 free_source = self.add_node(source)[0]
 
-            if target_index is None:
+            if target_index is None and target is source:
+                # a loop on a new node: source and target are one node, not two
+                target_index = source_index
+                free_target = self._unused_indices[source_index][1]
+            elif target_index is None:
                 target_index = len(self._nodes)
                 free_target = self.add_node(target)[1]
 
